@@ -28,7 +28,7 @@ ASSUMPTIONS = [
     "custom grids only inside the documented formula's domain of validity",
 ]
 TOLERANCES = {"formulas": "1e-9 relative", "grid anchors": "1e-12 * stretch", "quadrature": "1e-8", "round trip": "1e-10 relative"}
-BUDGET = {"quick": dict(examples=1500, shards=1), "thorough": dict(examples=10000, shards=16)}
+BUDGET = {"quick": dict(examples=4000, shards=1), "thorough": dict(examples=40000, shards=16)}
 
 
 def _psi(x):
@@ -198,10 +198,15 @@ def check_case(case):
         c2["z0"], c2["ustar"] = z0, ustar
         try:
             z2, prof2 = _call(c2, forcing=other)
+            # the node count is int-of-a-float: when the domain height is a whole number of zeta steps (e.g. equal to
+            # zm) the one-ulp change of z0 in the round trip may add or drop the single node above the domain height
+            m = min(len(z), len(z2))
+            if abs(len(z) - len(z2)) > 1 or m < n + 1 or min(z[m - 1], z2[m - 1]) < zmx * (1 - 1e-9):
+                out.bad(f"round trip z0 <-> u*: grids have {len(z)} and {len(z2)} nodes")
             for name, a, b in zip(("z", "u", "v", "Kx", "Ky", "Kz"), (z, u, v, Kx, Ky, Kz), (z2,) + prof2):
-                if a.shape != b.shape or not np.abs(a - b).max() <= 1e-10 * max(np.abs(a).max(), 1e-300):
-                    out.bad(f"round trip z0 <-> u*: {name} differs ({a.shape} vs {b.shape}, "
-                            f"{np.abs(a - b).max() if a.shape == b.shape else 'shape'})")
+                a, b = a[:m], b[:m]
+                if not np.abs(a - b).max() <= 1e-10 * max(np.abs(a).max(), 1e-300):
+                    out.bad(f"round trip z0 <-> u*: {name} differs by {np.abs(a - b).max():.3e}")
                     break
         except Exception as e:
             out.bad(f"round trip call raised {type(e).__name__}: {e}")
